@@ -385,3 +385,7 @@ func verifC04Defaults() {
 		c.Close()
 	}
 }
+
+// A timed-out message is delivered again right after the timeout to a consumer that has RDY
+// credit for it (the timeout wakes the delivery pump; shared with C03).
+func VerifC04_PumpHistoryRedeliversTimeouts() { verifPumpHistory() }
